@@ -727,6 +727,50 @@ def _taint(ctx: Ctx) -> None:
                     ctx.check(ok, "RF-TAINT", f"third-party-exception-not-chained:{fi.name}", fi, r,
                               ok="the replacement error is raised `from None`: the original exception (which may embed the signed URL) is not shown with it",
                               bad=f"`{txt(r)[:80]}` chains the caught {what} exception (implicitly or `from exc`): its message / request_info can embed the full signed URL and is rendered with the traceback sent to the peer")
+    # the request itself: whatever client.head()/client.get() raises is replaced by a redacted error, except classes
+    # whose text cannot carry the URL (plain re-raise of TimeoutError / ConnectionResetError / ServerDisconnectedError).
+    # aiohttp's ClientResponseError / InvalidURL / NonHttpUrlClientError render the full URL (userinfo, query, fragment).
+    rfr = ctx.fn(RFR)
+    from ..cfg import cfg_of as _cfg_of
+    from ..util import try_protecting as _tp
+
+    rcfg = _cfg_of(rfr.node)
+    reqs = [c for c in walk_scope(rfr.node) if isinstance(c, ast.Call) and last_attr(c) in ("head", "get", "request") and isinstance(c.func, ast.Attribute) and isinstance(c.func.value, ast.Name) and c.args]
+    if not reqs:
+        raise AnalysisError(f"anchor=client.head/get request calls in {rfr.fq}")
+    URL_FREE = {"TimeoutError", "ConnectionResetError", "ServerDisconnectedError", "CancelledError"}
+    for i, rq in enumerate(reqs):
+        verdict, site = "uncaught", rq
+        for t in _tp(rcfg, rq):
+            done = False
+            for h in t.handlers:
+                names = [] if h.type is None else [txt(x).split(".")[-1] for x in (h.type.elts if isinstance(h.type, ast.Tuple) else [h.type])]
+                catches_all = h.type is None or any(nm in ("Exception", "BaseException") for nm in names)
+                if not catches_all:
+                    # a narrower clause in front is fine when it only re-raises URL-free classes or itself redacts
+                    continue
+                raises = [r for st in h.body for r in walk_scope(st) if isinstance(r, ast.Raise)]
+                repl = [r for r in raises if r.exc is not None and not (isinstance(r.exc, ast.Name) and r.exc.id == h.name)]
+                bare = [r for r in raises if r not in repl]
+                # bare re-raises inside the catch-all must be guarded by an isinstance test on URL-free classes
+                leaky = []
+                for r in bare:
+                    guards = [g for g in enclosing(rcfg, r, (ast.If,)) if any(x is g for st in h.body for x in ast.walk(st))]
+                    ok_g = any(isinstance(c, ast.Call) and isinstance(c.func, ast.Name) and c.func.id == "isinstance" and len(c.args) == 2 and
+                               {txt(x).split(".")[-1] for x in (c.args[1].elts if isinstance(c.args[1], ast.Tuple) else [c.args[1]])} <= URL_FREE
+                               for g in guards for c in ast.walk(g.test))  # type: ignore[attr-defined]
+                    if not ok_g:
+                        leaky.append(r)
+                verdict, site = ("redacted" if repl and not leaky else "reraised-unredacted"), (leaky[0] if leaky else h)
+                done = True
+                break
+            if done:
+                break
+        ctx.check(verdict == "redacted", "RF-TAINT", f"request-errors-replaced-by-redacted-error:{i}", rfr, site,
+                  ok="every exception of the HTTP request other than the URL-free classes is replaced by an error that names the redacted URL only",
+                  bad=("no catch-all handler replaces the exceptions of `" + txt(rq)[:50] + "`: aiohttp's ClientResponseError (unparsable response head) and InvalidURL / NonHttpUrlClientError "
+                       "(bad redirect target) carry the full URL -- userinfo, signed query and fragment reach the caller's error text") if verdict == "uncaught"
+                  else "the catch-all handler re-raises an exception that can carry the full URL")
     require_count(ctx, "RF-TAINT", n_h, 3, "replacement raises in URL-carrying handlers")
     _ = model
 
